@@ -57,6 +57,19 @@ def cases(rng, tier):
                     'qclass': rng.choice(G.QCLASSES), 'mode': rng.choice(['left', 'right']),
                     'spectrum': rng.choice(['random', 'product', 'flat', 'stair', 'sum']),
                     'tol_kind': tol_kind, 'tol_frac': rng.random(), 'Dmax': rng.choice([2, 3, 4, 6])})
+    # wide first bonds: L = 2, 3 with d = 4..6 and few distinct charges, so that the first truncated bond carries several Schmidt
+    # values in each of two or three sectors (a truncation applied per sector instead of to the whole bond shows only there)
+    for k in range({'quick': 40, 'thorough': 300, 'search': 60}[tier]):
+        L = rng.choice([2, 2, 3])
+        out.append({'kind': 'compress', 'seed': rng.getrandbits(30), 'L': L, 'd': rng.choice([4, 5, 6] if L == 2 else [4]),
+                    'qclass': rng.choice(['sorted', 'sorted', 'unsorted', 'zero']), 'mode': rng.choice(['left', 'right']),
+                    'spectrum': 'random', 'tol_kind': rng.choice(['generic', 'generic', 'boundary']), 'tol_frac': rng.random(),
+                    'Dmax': rng.choice([6, 8])})
+    for d in (4, 5, 6):
+        for qc in ('zero', 'sorted'):
+            for mode in ('left', 'right'):
+                out.append({'kind': 'compress', 'seed': rng.getrandbits(30), 'L': 2, 'd': d, 'qclass': qc, 'mode': mode, 'spectrum': 'tail',
+                            'tol_kind': 'tail', 'tol_frac': 0.5, 'Dmax': d})
     for c in out:
         if c['kind'] == 'compress' and rng.random() < 0.2:
             c['layout'] = rng.randrange(1, 4)
@@ -68,8 +81,13 @@ def cases(rng, tier):
     return out
 
 
+TAIL_E = 0.04
+
+
 def _tol(case, L):
     k = case['tol_kind']
+    if k == 'tail':
+        return 2.5 * TAIL_E
     if k == 'zero':
         return 0.0
     if k == 'tiny':
@@ -103,6 +121,20 @@ def _state(case):
             for s in range(d):
                 A[s, 0 if i == 0 else s, 0 if i == L - 1 else s] = w[s] if i == 0 else 1.0
             psi.A[i] = A
+    elif sp == 'tail':
+        # L = 2: one dominant Schmidt value and a tail of d - 1 equal small ones (weight TAIL_E each), in one sector or spread over two;
+        # with tol = 2.5 TAIL_E the rule discards exactly two of them; truncating twice (per sector and again, or two passes) discards more
+        two = case['qclass'] != 'zero' and d % 2 == 0
+        qd = np.array([0] * d) if not two else np.array([0] * (d // 2) + [1] * (d // 2))
+        qb = [int(q) for q in qd]
+        psi = ptn.MPS(qd, [[0], qb, [1 if two else 0]], fill='postpone')
+        w = np.sqrt(np.array([1 - (d - 1) * TAIL_E] + [TAIL_E] * (d - 1)))
+        perm = rs.permutation(d)
+        A0 = np.zeros((d, 1, d)); A1 = np.zeros((d, d, 1))
+        for s_ in range(d):
+            A0[s_, 0, s_] = w[perm[s_]]
+            A1[(s_ + d // 2) % d if two else s_, s_, 0] = 1.0
+        psi.A = [A0, A1]
     else:
         psi = G.rand_mps(rs, L, d, qclass=case['qclass'], Dmax=case['Dmax'])
     if case.get('layout'):
